@@ -1,4 +1,29 @@
-/- Driver.C03 — stream `C03` (stub: replaced when the property's model is built). -/
+/-
+  Driver.C03 — stream `C03`: payload `(toks1 toks2)`: the token sequences the real tokenizer reports for the
+  text (first pass) and for the text wrapped by the real `addStartTag` (second pass; used only when the first
+  pass ends in MultipleRootNodeException).  For hostile text the second sequence is *not* `wrapToks` of the
+  first (an unterminated construct at the end of the text merges with the wrapper's end tag), so both are
+  supplied.  Observation: nothing parsed / the document / the exception.
+-/
+import Driver.TokIO
 namespace Driver.C03
-def run (_payload : String) : String := "unimplemented"
+open AHP AHP.Sexp Driver.TokIO
+
+def feed2 (t1 t2 : List Token) : FeedResult :=
+  match AHP.run BState.init t1 with
+  | .ok s => .doc s.doc false
+  | .multipleRoot =>
+    match AHP.run BState.init t2 with
+    | .ok s => .doc s.doc true
+    | o => .raised o
+  | o => .raised o
+
+def run (payload : String) : String :=
+  match Sexp.parse payload with
+  | some (.list [a, b]) =>
+    match toTokens? a, toTokens? b with
+    | some t1, some t2 => (feedSx (feed2 t1 t2)).render
+    | _, _ => "bad-case"
+  | _ => "bad-case"
+
 end Driver.C03
